@@ -698,8 +698,51 @@ def read_all(F, R):
          'read_all can return the collected bytes before a read() reported the end of the stream: pieces already buffered behind the first one are dropped and a truncated payload is returned as Ok', b.loc(bad[0]) if bad else b.loc(0))
 
 
+def partial_frame_reads(F, R):
+    """Need-more-data discipline of the functions that look into a frame that may not be complete yet: the two
+    Codec::decode bodies and every function they hand the receive buffer to by shared reference (`&BytesMut`, `&[u8]`:
+    packet_header_size, decode_variable_length). A length field cut by the read boundary must give Ok(None) (wait for
+    more bytes), so these functions may read variable byte integers only through utils::decode_variable_length, which
+    maps the strict reader's 'ran out of bytes' to None; the strict cursor reader is for complete frames only."""
+    roots = [decoder(F, 'v3'), decoder(F, 'v5')]
+    def complete_frame_consumer(p):
+        b = F.bodies.get(p)
+        if b is None:
+            return True
+        tys = [b.local_ty(i) for i in range(1, b.argc + 1)]
+        return any(re.search(r'&mut ntex_bytes::Bytes$|&mut ntex_bytes::Bytes\b(?!Mut)', t) for t in tys)
+    cg = F.callgraph_from([b.path for b in roots], stop=complete_frame_consumer)
+    peekers = []
+    for p in cg:
+        b = F.bodies.get(p)
+        if b is None or complete_frame_consumer(p):
+            continue
+        tys = [b.local_ty(i) for i in range(1, b.argc + 1)]
+        if b in roots or any(re.search(r'&ntex_bytes::BytesMut|&\[u8\]', t) for t in tys):
+            peekers.append(b)
+    R.floor('C10.consume-implies-state', 'functions that look into a possibly incomplete frame', len(peekers), 3)
+    for b in peekers:
+        if b.path.endswith('utils::decode_variable_length'):
+            continue
+        strict = [(bi, t) for bi, t in b.calls_to(r'utils::decode_variable_length_cursor$')]
+        R.ob('C10.consume-implies-state', '%s|length-fields-read-tolerantly' % b.path, not strict,
+             'a function that examines a frame which may still be incomplete reads a variable byte integer with the strict reader: when the read boundary falls inside the length field the packet is refused as malformed instead of waiting for more bytes', b.loc(strict[0][0]) if strict else None)
+    w = F.one(r'^utils::decode_variable_length$')
+    de = F.adts['error::DecodeError']
+    mi = [i for i, v in enumerate(de['variants']) if v['name'] == 'MalformedPacket'][0]
+    ok = False
+    for p in SymEx(w, F).run():
+        if p.end[0] != 'return' or not p.ret or p.ret[0] != 'agg' or p.ret[2] != 'Ok':
+            continue
+        inner = p.ret[3].get('0')
+        if inner and inner[0] == 'agg' and inner[2] == 'None' and any(t[0] == 'discr' and c == ('eq', mi) for t, c in p.conds):
+            ok = True
+    R.ob('C10.consume-implies-state', 'utils::decode_variable_length|ran-out-of-bytes=>None', ok, 'the tolerant reader does not map the strict reader\'s MalformedPacket (no more bytes) to Ok(None)', w.loc(0))
+
+
 def run(F, R):
     read_all(F, R)
+    partial_frame_reads(F, R)
     for ver in ('v5', 'v3'):
         consume_implies_state(F, R, ver)
         ve, arms = state_graph(F, R, ver)
